@@ -73,7 +73,7 @@ def check(F, rep):
                 rep.ob("queued", requires(f, cb, ts, levels=[0, 1]), site(f, cb), "pushed on the Some(Ok(ip)) path", skey(F, f, "queue-on-ok"))
     # every attempt carries its own relative timeout
     att = []
-    for g in F.tree(F.fn(FN)):
+    for g in tree_with_helpers(F, F.fn(FN)):
         for b, t in find_calls(g, regex=r"^tokio::time::timeout::(timeout|timeout_at)$"):
             if any(True for _ in find_calls(g, regex=r"TcpStream::connect$")):
                 att.append((g, b, t))
